@@ -107,7 +107,7 @@ CLAIMS = {
          "comprehension costs range + initial value + B*(condition + step) + result - the size of the program times the product of the nested ranges, never exponential in nesting "
          "depth; unconditional when the ranges are list literals (C07_cost_bound_literal). Tied to objects.rs/magic.rs by programs whose leaves and calls are wrapped "
          "by id-carrying logging host functions (order and multiplicity visible), every call shape (0-4 arguments, global/receiver, built-in/host, "
-         "Arguments), and nested chains to depth 14/22 whose log length was 2^depth before the fix."),
+         "Arguments), and nested chains to depth 14/22 whose log length was 2^depth before the fix; the at-most-once law is also evaluated on the implementation's own log for every macro-free program. Known finding K02: a host function combining Arguments with another extractor evaluates the argument that extractor resolved a second time (C07_once_refuted_for_mixed_arguments; the theorems assume once_ctx, which holds of the default context)."),
  "C19": ("Theorem (induction over expressions, for every context): if evaluation fails with 'undeclared reference n' then n is among the "
          "variables or functions reported by the transcription of Program::references, unless n is a macro-internal '@' name; built-ins and host "
          "functions never fabricate that error; '@' names are never reported; the report has no context argument. Conversely (C19_complete, by an "
